@@ -54,7 +54,8 @@ def proj_poll_c12(c):
 POLL_RULE = (
     "the real run_clock_error_bound_poller with the real ClockErrorBoundPoller is run in-process on scripted runs "
     "(every grid run and every fourth seeded run also as `pollr`: through the thread's real entry point chrony_poller::run, "
-    "a query issued before the first round being counted into the first report's log): "
+    "a query issued before the first round being counted into the first report's log; CLOCK_REALTIME, which the poller has no business with, "
+    "is stepped by an hour back and forth from one iteration to the next, so a report altered or re-timed using the system clock shows): "
     "a deterministic grid (5 start instants incl. 0 and 5 s -1/0/+1 ns; start-up silences at +0, +1 ns, 5 s -1/0/+1 ns, 500 s; "
     "an answer followed by silences 5 s -1/0/+1 ns later, both kinds of silence (io error, non-Tracking reply); "
     "9 (configured, reported) reference-id pairs equal / off by one / zero / 2^32-1 x 8 file states "
